@@ -1,7 +1,9 @@
 #include "prelude.hpp"
-extern "C" { int g_split_verdict; int g_split_calls; }
+extern "C" { int g_split_verdict; int g_split_calls; size_t g_off; int g_match; size_t g_txlen; }
 namespace altintegration {
 #include "slices/checkBitcoinTransactionForPoPData.inc"
+struct PackedArgs { VbkPopTx* tx; ValidationState* state; };
+#include "slices/checkBtcTx_packed.inc"
 }
 using namespace altintegration;
 #define REACH __CPROVER_assert(0, "REACH: harness end is reachable (expected to fail)")
@@ -10,6 +12,7 @@ using namespace altintegration;
 #endif
 extern "C" {
 uint8_t nondet_u8();
+size_t nondet_size_t();
 bool nondet_bool();
 // pub: the 80 publication bytes (65 header + 15 address); tx: the Bitcoin transaction
 int w_checkBtcTx(const uint8_t* pub, const uint8_t* tx, size_t txlen, int split_verdict, int* split_calls) {
@@ -32,6 +35,40 @@ void h_checkBtcTx() {
   for (int i = 0; i < TXLEN; i++) tx[i] = nondet_u8();
   int calls;
   w_checkBtcTx(pub, tx, TXLEN, nondet_bool(), &calls);
+  REACH;
+}
+
+#ifndef TXMAX
+#define TXMAX 100
+#endif
+// completeness for every transaction length (outer search loop closed by a loop contract, see loops.json):
+// goff is a ghost offset; g_match says whether the 80 publication bytes occur at goff
+int w_checkBtcTx_any(const uint8_t* pub, const uint8_t* tx, size_t txlen, size_t goff, int split_verdict) {
+  VbkPopTx t;
+  for (int i = 0; i < 65; i++) t.publishedBlock.raw[i] = pub[i];
+  for (int i = 0; i < 15; i++) t.address.pop[i] = pub[65 + i];
+  t.bitcoinTransaction.tx = std::vector<uint8_t>(tx, tx + txlen);
+  g_split_verdict = split_verdict != 0 ? 1 : 0;
+  g_split_calls = 0;
+  g_off = goff;
+  g_txlen = txlen;   // ghost copy of the transaction length for the loop invariant
+  g_match = 0;
+  if (goff + 80 <= txlen) {
+    g_match = 1;
+    for (size_t k = 0; k < 80; k++) if (tx[goff + k] != pub[k]) g_match = 0;
+  }
+  ValidationState st;
+  PackedArgs pa; pa.tx = &t; pa.state = &st;
+  bool ok = checkBitcoinTransactionForPoPData_packed(pa);
+  __CPROVER_assert(ok == st.IsValid(), "result false <=> ValidationState invalid");
+  return ok;
+}
+void h_checkBtcTx_any() {
+  uint8_t pub[80];
+  uint8_t tx[TXMAX];
+  for (int i = 0; i < 80; i++) pub[i] = nondet_u8();
+  for (int i = 0; i < TXMAX; i++) tx[i] = nondet_u8();
+  w_checkBtcTx_any(pub, tx, nondet_size_t(), nondet_size_t(), nondet_bool());
   REACH;
 }
 }
